@@ -34,6 +34,12 @@ V(t) == (IF t.res = "ok" THEN {} ELSE {<<l, "RestoreFailed">>})
         \cup (IF \A i \in 1..Len(t.b) : \A j \in 1..Len(t.b[i].parts) :
                     t.b[i].parts[j].route = (IF \E k \in 1..Len(t.b[i].parts) : t.b[i].parts[k].pnodes = <<>> THEN "none" ELSE IF 1 \in SetOf(t.b[i].parts[j].pnodes) THEN "local" ELSE "forward")
               THEN {} ELSE {<<l, "RouteStale">>})
+        \* C17: the follower counts a dataset's partitions itself iff it hosts every one of them (a partition that moved
+        \* away has to be asked for where it is now - its stale local copy is not the partition)
+        \cup (IF \A i \in 1..Len(t.b) :
+                    t.b[i].size = (IF \E k \in 1..Len(t.b[i].parts) : t.b[i].parts[k].pnodes = <<>> THEN "none"
+                                   ELSE IF \A k \in 1..Len(t.b[i].parts) : 1 \in SetOf(t.b[i].parts[k].pnodes) THEN "ok" ELSE "remote")
+              THEN {} ELSE {<<l, "SizeRouteStale">>})
         \* a replica this node hosts when the snapshot arrives and keeps hosting: its raft log is still there afterwards
         \* (before / after: the log's last index; it only grows while the replica stays - Catalogue!StoresKept)
         \cup (IF \A k \in 1..Len(t.kept) : t.kept[k].after >= t.kept[k].before THEN {} ELSE {<<l, "ReplicaStoreLost">>})
